@@ -307,7 +307,7 @@ class Interp:
             return ClassVal(name)
         if name in ("len", "min", "max", "int", "str", "bytes", "list", "dict", "tuple", "range", "enumerate", "isinstance",
                     "print", "hex", "open", "super", "zip", "map", "filter", "iter", "sorted", "abs", "bool", "type",
-                    "hasattr", "getattr", "set", "any", "all", "sum", "repr", "ord", "chr", "reversed", "next"):
+                    "hasattr", "getattr", "set", "any", "all", "sum", "repr", "ord", "chr", "reversed", "next", "divmod", "pow", "round", "zip", "frozenset"):
             return BuiltinVal(name)
         if name == "NotImplemented":
             return Opaque("NotImplemented")
